@@ -5,5 +5,6 @@ import Refine.Gen.CellTables
 import Refine.Gen.PartMacros
 import Refine.Model.CellTopo
 import Refine.Model.Geom
+import Refine.Model.Comm
 import Refine.Lemmas.ScalarReal
 import Refine.Props.C15
